@@ -79,6 +79,12 @@ def make_trace(tid, rng, nops=30, **opt):
     for i in range(n):
         r = rng.random()
         mp.append(-1 if r < 0.2 else -2 if r < 0.35 else pos.pop())
+    runs = opt.get("many") == "runs"
+    if runs:  # long runs of each kind of block, blocks of 1-2 MiB
+        bs, n = rng.choice([1 << 20, 1 << 20, 2 << 20]), rng.randrange(48, 72)
+        plan = diskprop.run_plan(rng, n, ["U", "Z", "D", "Dr"])
+        pp, npos = diskprop.run_positions(plan)
+        mp = [-1 if k == "U" else -2 if k == "Z" else pp[i] for i, k in enumerate(plan)]
     parent = rng.random() < 0.3
     tail = rng.choice([0, 0, 512, bs // 2, bs - 512])
     img = {"n": n, "cb": 1, "map": {i: mp[i] for i in range(n)}, "size": n, "parent": parent}
@@ -90,7 +96,10 @@ def make_trace(tid, rng, nops=30, **opt):
     s = b.open()
     fresh = b.open()
     rec = record.Recorder(s, size_b, probe=fresh.readoffset, align=opt.get("align"))
-    record.random_ops(rec, rng, size_b, nops, unit=bs, big=min(3 * bs + 4096, 6 << 20))
+    if runs:
+        diskprop.whole_disk_ops(rec, rng, size_b, bs)
+        nops = 6
+    record.random_ops(rec, rng, size_b, nops, unit=bs, big=(size_b + 4096) if runs else min(3 * bs + 4096, 6 << 20))
     return {"tid": tid, "fmt": "vdi", "img": {"n": n, "map": mp, "parent": parent}, "sizeB": size_b, "geo": b.geo(), "events": rec.events,
             "image_type": prof["hdr"]["image_type"]}
 
